@@ -11,7 +11,7 @@ PROPERTY = "C20"
 LEVEL = "exploration"
 RULE = (
     "in fresh interpreters with 6 (thorough 24) different string hash seeds: every live type (structures, the four area tables, frames, response-code name tables) is walked once after "
-    "import; one evaluation per (type or table entry, coherence rule) plus one per compared snapshot node; distinct = "
+    "import; one evaluation per (type or table entry, coherence rule) plus one per compared snapshot node; the layout each of the 234 parameter areas takes under parameter encryption is derived and compared with the pinned fields (size-prefixed first parameter replaced by the opaque buffer); distinct = "
     "distinct (rule, type/entry) pairs; exhaustive over the finite tables; then the allowed set of every constrained primitive type is probed by membership at every interval end point (+-1) of its whole type family in three passes (name order, reverse, shuffled after a decode workload) and the walk is compared with the snapshot a second time"
 )
 ASSUMPTIONS = [
@@ -145,6 +145,7 @@ def run_shard(shard, rec):
 
     coherence(w, report_live, tick)
     coherence(P, report_pinned, lambda s: None)
+    encrypted_layouts(P, rec)
     rec.count("types_walked", len(w["types"]))
     rec.count("area_types_walked", len(w["area_types"]))
     rec.count("command_codes", len(w["command_codes"]))
@@ -169,6 +170,34 @@ def run_shard(shard, rec):
     after_use(rec, P, shard.get("tier", "quick"))
     for tn in ("TPMT_PUBLIC", "TPMU_HA", "TPM_HANDLE"):
         rec.sample({tn: w["types"][tn] if len(str(w["types"][tn])) < 400 else str(w["types"][tn])[:400]})
+
+
+def encrypted_layouts(P, rec):
+    """The layout a parameter area takes under parameter encryption is derived from its table entry: the pinned fields with
+    a size-prefixed first parameter replaced by TPM2B_ENCRYPTED_PARAM, everything else unchanged (an area whose first
+    parameter is not size-prefixed keeps its layout)."""
+    import dataclasses
+
+    from tpmstream.spec.commands import Command, Response
+
+    for table_name, table in (("command_params", Command._type_maps["parameters"]), ("response_params", Response._type_maps["parameters"])):
+        for cc, T in table.items():
+            rec.case(("encrypted-layout", table_name, int(cc)))
+            pinned = P["area_types"].get(T.__name__)
+            if pinned is None or not hasattr(T, "encrypted"):
+                continue
+            exp = [list(f) for f in pinned["fields"]]
+            if exp and exp[0][1].startswith("TPM2B"):
+                exp[0] = [exp[0][0], "TPM2B_ENCRYPTED_PARAM"]
+            try:
+                E = T.encrypted()
+                got = [[f.name, layout.tname(f.type)] for f in dataclasses.fields(E)]
+            except Exception as e:
+                rec.violation("encrypted-layout", f"tables/{table_name}:raises", f"{T.__name__}.encrypted() raises {type(e).__name__}: {e}", dict(kind="coherence", message=T.__name__))
+                continue
+            rec.count("encrypted_layouts_derived")
+            if got != exp:
+                rec.violation("encrypted-layout", f"tables/{table_name}", f"{T.__name__} (code {int(cc):#x}) under parameter encryption has fields {got}, the pinned fields give {exp}", dict(kind="coherence", message=T.__name__))
 
 
 def after_use(rec, P, tier):
@@ -243,6 +272,8 @@ def finish(m, tier):
     inc = []
     if m["counters"].get("types_walked", 0) < 200 or m["counters"].get("command_codes", 0) < 100:
         inc.append("walker saw too few types/codes")
+    if not m["counters"].get("encrypted_layouts_derived"):
+        inc.append("no encrypted parameter layout was derived")
     if m["counters"].get("membership_probe_passes", 0) < 3 or m["counters"].get("walks", 0) < 2:
         inc.append("the after-use phase (membership probes, second walk) did not complete")
     return dict(exhaustive=True, inconclusive=inc)
